@@ -86,13 +86,20 @@ type Rec struct {
 
 const ifaceSrc = `package p
 
+import (
+	"context"
+	"time"
+)
+
+// the two interfaces interact through the import table when they are mocked in one run:
+// Other has parameters spelled like the packages only Store brings in
 type Store interface {
-	Get(k string) (int, error)
-	Put(k string, v int)
+	Get(ctx context.Context, k string) (int, error)
+	Put(k string, v int, ttl time.Duration)
 }
 
 type Other interface {
-	Ping() error
+	Ping(context string, time int) error
 }
 
 type NotIface struct{ V int }
@@ -101,14 +108,19 @@ type NotIface struct{ V int }
 // the "older version" of the interface, whose mock no longer satisfies Store
 const ifaceSrcOld = `package p
 
+import (
+	"context"
+	"time"
+)
+
 type Store interface {
-	Get(k string) (string, error)
-	Put(k string, v int)
+	Get(ctx context.Context, k string) (string, error)
+	Put(k string, v int, ttl time.Duration)
 	Del(k string)
 }
 
 type Other interface {
-	Ping() error
+	Ping(context string, time int) error
 }
 
 type NotIface struct{ V int }
@@ -213,6 +225,17 @@ type runner struct {
 	strace bool
 	refMu  sync.Mutex
 	ref    map[string][]byte
+	// preparations (a plain, valid moq command that creates what stands at -out beforehand)
+	// that the binary under test failed: the scenario cannot be set up and is skipped
+	prepMu         sync.Mutex
+	prepFailed     []string
+	straceGlitches int // scenarios dropped because strace itself failed three times
+}
+
+func (r *runner) prepFailure(what string, err error, out []byte) {
+	r.prepMu.Lock()
+	defer r.prepMu.Unlock()
+	r.prepFailed = append(r.prepFailed, fmt.Sprintf("%s: %v %s", what, err, firstLine(string(out))+" | "+core.Tail(string(out), 3)))
 }
 
 // layout creates the scratch module for one run and returns its root.
@@ -409,10 +432,20 @@ func (r *runner) run(id int, pred Pred, spelling string) (*Rec, error) {
 			return rec, err
 		}
 		rec.Case = id
+		if strings.HasPrefix(rec.Obs.StderrHead, "strace:") {
+			// the tracer itself failed (ptrace hiccup on a loaded machine): not a run of moq
+			rec = nil
+			continue
+		}
 		if !(pred.Exit == 0 && rec.Obs.Exit != 0) {
 			break
 		}
 		rec.Obs.Attempts = attempt + 1
+	}
+	if rec == nil {
+		r.prepMu.Lock()
+		r.straceGlitches++
+		r.prepMu.Unlock()
 	}
 	return rec, nil
 }
@@ -443,7 +476,8 @@ func (r *runner) runOnce(id int, pred Pred, spelling string) (*Rec, error) {
 		a, cwd := r.cmdline(Scenario{Out: sc.Out, Args: "none"}, "", root)
 		a = append(a, "p", "Store:storeDouble")
 		if o, err := prep(r.moq, a, cwd); err != nil {
-			return nil, core.Infra("preparing prior=owncase failed: %v %s", err, o)
+			r.prepFailure("preparing prior=owncase ("+strings.Join(a, " ")+")", err, o)
+			return nil, nil
 		}
 	case "own", "ownnoop", "ownlong", "ownstub":
 		a, cwd := r.cmdline(Scenario{Out: sc.Out, Args: firstOK(sc.Args)}, "", root)
@@ -457,13 +491,15 @@ func (r *runner) runOnce(id int, pred Pred, spelling string) (*Rec, error) {
 			a = append([]string{"-with-resets"}, a...)
 		}
 		if o, err := prep(r.moq, a, cwd); err != nil {
-			return nil, core.Infra("preparing prior=own failed: %v %s", err, o)
+			r.prepFailure("preparing prior=own ("+strings.Join(a, " ")+")", err, o)
+			return nil, nil
 		}
 	case "older":
 		os.WriteFile(filepath.Join(root, "p", "iface.go"), []byte(ifaceSrcOld), 0o644)
 		a, cwd := r.cmdline(Scenario{Out: sc.Out, Args: "ok"}, "", root)
 		if o, err := prep(r.moq, a, cwd); err != nil {
-			return nil, core.Infra("preparing prior=older failed: %v %s", err, o)
+			r.prepFailure("preparing prior=older ("+strings.Join(a, " ")+")", err, o)
+			return nil, nil
 		}
 		os.WriteFile(filepath.Join(root, "p", "iface.go"), []byte(ifaceSrc), 0o644)
 	case "garbage":
@@ -525,7 +561,7 @@ func (r *runner) runOnce(id int, pred Pred, spelling string) (*Rec, error) {
 		} else if err != nil {
 			return nil, core.Infra("running moq: %v", err)
 		}
-	case <-time.After(60 * time.Second):
+	case <-time.After(180 * time.Second):
 		cmd.Process.Kill()
 		<-done
 		o.TimedOut, o.Exit = true, -1
@@ -933,6 +969,30 @@ func runCLIFiltered(prop, tier string, sc *core.Scratch, ev *core.Evidence, rep 
 	if firstErr != nil {
 		return 2, firstErr
 	}
+	// scenarios that could not be set up because the binary under test failed a plain, valid
+	// command: reported (a crash there is a real run that ended in a Go panic: C19), never
+	// silently dropped and never mistaken for a failure of the machinery
+	prepViolations := 0
+	if r.straceGlitches > 0 {
+		ev.Set("scenarios_dropped_strace_failed", r.straceGlitches)
+	}
+	if len(r.prepFailed) > 0 {
+		sort.Strings(r.prepFailed)
+		ev.Set("scenarios_not_set_up", len(r.prepFailed))
+		crash := ""
+		for _, f := range r.prepFailed {
+			if strings.Contains(f, "panic:") || strings.Contains(f, "fatal error:") || strings.Contains(f, "goroutine 1 [") {
+				crash = f
+				break
+			}
+		}
+		if crash != "" && prop == "C19" {
+			rep.Violation(prop, map[string]any{"kind": "a valid moq command (used to prepare the state of -out) ended in a Go run-time crash", "detail": crash,
+				"how": "real moq binary in a scratch module"})
+			prepViolations++
+		}
+		rep.DriftNote(fmt.Sprintf("%d scenarios were not run: the binary under test failed the valid command that prepares the prior state of -out (e.g. %s)", len(r.prepFailed), r.prepFailed[0]))
+	}
 	var buf bytes.Buffer
 	enc := json.NewEncoder(&buf)
 	n := 0
@@ -967,7 +1027,7 @@ func runCLIFiltered(prop, tier string, sc *core.Scratch, ev *core.Evidence, rep 
 	if err != nil {
 		return 2, err
 	}
-	violations := 0
+	violations := prepViolations
 	known := map[string]int{}
 	for _, f := range core.PrintedLines(res.Output, "CLI-FAIL ") {
 		s, err := strconv.Unquote(`"` + f + `"`)
